@@ -56,6 +56,15 @@ CHECKS = {
  "C14": ("model_checking", "explicit-state BFS over operation histories on the real Model, dict reference compared on every transition",
          "All create/delete/configure/reset/set_state histories up to depth 5 (quick) / 7 (thorough) over two agent types; every registry query compared with a dict id->(type,state) after every transition.",
          "Agents created through factories whose name equals agent_type; ids offered to delete range over all ids ever issued (live and dead).", "§4 C14"),
+ "C18": ("model_checking", "stateless preemption-bounded exploration (iterative context bounding) of concurrent stepping requests under a controlled scheduler: sys.settrace line points, per-thread baton, scheduler-owned mutex",
+         "Every schedule with <= 1 (thorough 2) preemptions of two concurrent stepping requests - all 6 unordered pairs of run-step / run-steps / stream-steps - (thorough: three requests, <= 1 preemption) at the source lines of the handlers, the streamer, lock/unlock/is_locked/try_lock and the session-touching lines of bptk.run_step: consecutive steps per response, no time twice, clock = steps returned, results log = returned times, lock released; plus 7 sequential release cases (completion, error, client gone).",
+         "Source-line granularity; Flask test clients in controlled threads; the library mutex bptk._lock_guard is replaced by a scheduler-owned lock; simulation worker threads run inside their parent's turn.", "§4 C18"),
+ "C19": ("model_checking", "exhaustive enumeration of session histories x adapter mode x save/restore route; JSON equality before/after",
+         "Run spec x n <= 3 (thorough 4) steps x every sequence over {no body, {}, constants, constants+points} x compress off/on x {auto save + lazy restore after a virtual-clock time-out, save-state/load-state, new server on the directory} x 1-2 scenarios: session-results, flat results, clock, settings log and results log after the restore equal those before; run-step has the same status with and without an adapter.",
+         "FileAdapter only; logs compared after JSON key normalisation.", "§4 C19"),
+ "C20": ("fault_enumeration", "exhaustive enumeration of crash points and torn-write classes over session histories; differential oracle against the uninterrupted run",
+         "For every history (run spec x N <= 3 (4) stepping requests x settings sequences x begin settings x compress): every crash point k in 0..N - server object dropped, new BptkServer on the same directory, remaining requests equal the uninterrupted run; torn writes: the file written by request k cut at 6 truncation classes, with and without a second intact instance - the constructor never raises, the intact instance continues, the damaged one may be lost.",
+         "Crash between requests or truncation of the last written file; FileAdapter only.", "§4 C20"),
 }
 
 def main():
